@@ -1,7 +1,7 @@
 SPECIFICATION SpecQ
 CONSTANTS
   WD = 2
-  ND = 6
+  ND = 5
   TopLim = 1
 INVARIANTS InvQ
 CHECK_DEADLOCK FALSE
